@@ -18,11 +18,13 @@ def adjV : List Int → List Int → Bool
   | x :: xs, y :: ys => adj1 x y && adjV xs ys
   | _, _ => false
 
-def insertSorted (x : Nat) : List Nat → List Nat
-  | [] => [x]
-  | y :: ys => if x < y then x :: y :: ys else if x = y then y :: ys else y :: insertSorted x ys
+/-- remove consecutive duplicates -/
+def dedupAdj : List Nat → List Nat
+  | [] => []
+  | [a] => [a]
+  | a :: b :: l => if a = b then dedupAdj (b :: l) else a :: dedupAdj (b :: l)
 /-- sorted, duplicate-free list of the elements of `xs` -/
-def sortDedup (xs : List Nat) : List Nat := xs.foldr insertSorted []
+def sortDedup (xs : List Nat) : List Nat := dedupAdj (xs.mergeSort (· ≤ ·))
 
 /-- cells of level `l` = ancestors of the occupied leaves (leaf level `L`) -/
 def specCells (D L : Nat) (leaves : List Nat) (l : Nat) : List Nat :=
@@ -48,23 +50,25 @@ deriving Repr, BEq, DecidableEq, Inhabited
     not adjacent to `t`; the code is the base-7 code of the offset `s' - t` -/
 def specM2LLevel (D : Nat) (periodic : Bool) (l : Nat) (tgts srcs : List Nat) : List Elem :=
   if (!periodic && l < 2) || (periodic && l < 1) then [] else
+  let half := fun (v : List Int) => v.map (· / 2)     -- `/` on `Int` is floor division for a positive divisor
+  let shifts := (imageShifts D periodic).map fun k => k.map (· * 2^l)
+  let sps := srcs.map fun s => (s, toI (decode D l s))
   tgts.flatMap fun t =>
     let tp := toI (decode D l t)
-    srcs.flatMap fun s =>
-      let sp := toI (decode D l s)
-      (imageShifts D periodic).filterMap fun k =>
-        let sp' := vadd sp (k.map (· * 2^l))
-        let half := fun (v : List Int) => v.map (· / 2)     -- Int.div rounds toward -∞ for these uses (floor)
+    sps.flatMap fun (s, sp) =>
+      shifts.filterMap fun k =>
+        let sp' := vadd sp k
         if adjV (half tp) (half sp') && !adjV tp sp' then some (Elem.m2l l t s (code7 (vsub sp' tp))) else none
 
 /-- direct pairs at the leaf level: `s` (possibly an image) adjacent to `t`, offset in the upper half -/
 def specP2P (D : Nat) (periodic : Bool) (L : Nat) (leaves : List Nat) : List Elem :=
+  let shifts := (imageShifts D periodic).map fun k => k.map (· * 2^L)
+  let sps := leaves.map fun s => (s, toI (decode D L s))
   leaves.flatMap fun t =>
     let tp := toI (decode D L t)
-    leaves.flatMap fun s =>
-      let sp := toI (decode D L s)
-      (imageShifts D periodic).filterMap fun k =>
-        let off := vsub (vadd sp (k.map (· * 2^L))) tp
+    sps.flatMap fun (s, sp) =>
+      shifts.filterMap fun k =>
+        let off := vsub (vadd sp k) tp
         if off.all (fun o => o.natAbs ≤ 1) && !off.all (· == 0) && (3^D)/2 < code3 off
         then some (Elem.p2p s t (code3 off)) else none
 
@@ -96,40 +100,5 @@ def elemsOfCall : Call → List Elem
   | .p2p s t c => [Elem.p2p s t c]
   | .p2pTsm s t c => [Elem.p2pTsm s t c]
   | .p2pInner l => [Elem.p2pInner l]
-
-/-! ## closed forms for the values after one complete run (free kernel) -/
-
-/-- weight of all particles below cell `c` of level `l` -/
-def specMult (D L : Nat) (shape : Shape) (l c : Nat) : Nat :=
-  ((shape.filter fun lf => lf.1 / 2^(D * (L - l)) == c).map fun lf => sumW lf.2).sum
-
-/-- multipole of every cell after a full run: defined at levels `≥ upper` (and only if `H > upper`) -/
-def specMultUpper (D H : Nat) (shape : Shape) (upper l c : Nat) : Nat :=
-  if H > upper && upper ≤ l then specMult D (H-1) shape l c else 0
-
-/-- what the M2L pass of level `l` adds to the local of `c` -/
-def specM2LInto (D H : Nat) (periodic : Bool) (shape : Shape) (upper l c : Nat) : Nat :=
-  let leaves := sortDedup (shape.map (·.1))
-  let cs := specCells D (H-1) leaves l
-  ((specM2LLevel D periodic l [c] cs).map fun e => match e with
-    | Elem.m2l l _ s _ => specMultUpper D H shape upper l s
-    | _ => 0).sum
-
-/-- local of cell `c` of level `l` after a full run: transfers into `c` and into its ancestors down
-    to the upper working level -/
-def specLocal (D H : Nat) (periodic : Bool) (shape : Shape) (upper l c : Nat) : Nat :=
-  (((List.range (l+1)).filter (upper ≤ ·)).map fun a => specM2LInto D H periodic shape upper a (c / 2^(D * (l - a)))).sum
-
-/-- result of particle `p` stored in leaf `i` after a full run -/
-def specRhs (D H : Nat) (periodic : Bool) (shape : Shape) (upper : Nat) (i p : Nat) : Nat :=
-  let L := H - 1
-  let leaves := sortDedup (shape.map (·.1))
-  let wOf := fun j => specMult D L shape L j
-  let far := if H > upper then specLocal D H periodic shape upper L i else 0
-  -- direct: every adjacent leaf image, from either side of the mutual call
-  let near := ((specP2P D periodic L leaves).map fun e => match e with
-    | Elem.p2p s t _ => (if t == i then wOf s else 0) + (if s == i then wOf t else 0)
-    | _ => 0).sum
-  far + near + (wOf i - weight p)
 
 end Tbfmm
